@@ -15,7 +15,7 @@ import (
 	"verifharness/internal/hx"
 )
 
-const rule = "random Directory DAGs (shared subtrees, depth <= 8, empty directories, 4 digest functions; one in seven directories malformed: invalid name, duplicate within/across the three lists, bad digest, unusable symlink target; garbage and absent blobs) merged with the real MergeDirectoryContents and explored in random order through virtual.Directory, interleaved with every kind of write attempt on CAS files, local remove/create/mkdir, VirtualRename/VirtualLink between random places (rename of a fresh local file over a CAS file, of never explored directories, onto existing entries), ApplyGetContainingDigests queries, further merges and storage faults; every second case merges with the real Bloom filter access monitor (NewAccessMonitoringInitialContentsFetcher); then the same digest merged into a fresh root; in a third of the cases 2-5 goroutines list every directory of the fresh root concurrently, each in its own order; separate histories drive the caching directory fetcher (same digest as Directory and as Tree root, small capacities, base failures) and (monitor only) the eager naiveBuildDirectory on a temporary directory with and without the hard-linking file fetcher. Non-trivial = (>= 3 lazily fetched directories, a merge succeeded, >= 1 write attempt on a CAS file was refused, and a fault was hit or a directory that cannot be loaded was accessed or a local modification succeeded) or (cache history with >= 1 hit and >= 1 miss) or (naive history with >= 1 successful materialisation); distinct = hash of the history"
+const rule = "random Directory DAGs (shared subtrees, depth <= 8, empty directories, 4 digest functions; one in seven directories malformed: invalid name, duplicate within/across the three lists, bad digest, unusable symlink target; garbage and absent blobs) merged with the real MergeDirectoryContents and explored in random order through virtual.Directory, interleaved with every kind of write attempt on CAS files, local remove/create/mkdir, VirtualRename/VirtualLink between random places (rename of a fresh local file over a CAS file, of never explored directories, onto existing entries), ApplyGetContainingDigests queries, further merges and storage faults; every second case merges with the real Bloom filter access monitor (NewAccessMonitoringInitialContentsFetcher); then the same digest merged into a fresh root; in about a fifth of the cases a three-party interleaving is forced deterministically (T1 keeps a lazily loaded directory locked behind a suspended GetDirectory, T2's lookup of it with change ID attributes drops the parent lock and waits, the name is re-bound by two renames, storage resumes: the lookup must return the directory now under the name); in a third of the cases 2-5 goroutines list every directory of the fresh root concurrently, each in its own order; separate histories drive the caching directory fetcher (same digest as Directory and as Tree root, small capacities, base failures) and (monitor only) the eager naiveBuildDirectory on a temporary directory with and without the hard-linking file fetcher. Non-trivial = (>= 3 lazily fetched directories, a merge succeeded, >= 1 write attempt on a CAS file was refused, and a fault was hit or a directory that cannot be loaded was accessed or a local modification succeeded) or (cache history with >= 1 hit and >= 1 miss) or (naive history with >= 1 successful materialisation); distinct = hash of the history"
 
 func nontrivial(o outcome) bool {
 	f := o.flags
@@ -26,7 +26,7 @@ func nontrivial(o outcome) bool {
 		return true
 	}
 	return f["dir-fetches"] >= 3 && f["merge-ok"] > 0 && f["cas-file-write-refused"] > 0 &&
-		(f["fault-hit"] > 0 || f["bad-directory-accessed"] > 0 || f["local-modification"] > 0 || f["merge-rejected"] > 0)
+		(f["fault-hit"] > 0 || f["bad-directory-accessed"] > 0 || f["local-modification"] > 0 || f["merge-rejected"] > 0 || f["race3-lookup-parked"] > 0)
 }
 
 func main() {
